@@ -84,7 +84,14 @@ def rule_g(repo, chk):
     chk.ob('g', d.ref, 'the flush takes entries with popleft', bool(pops), loc(d, d.node), discr='popleft-used')
     for pn in pops:
         loops = [a for k, a in pn.ctx if k == 'loop']
-        ok = bool(loops) and isinstance(loops[-1], ast.While) and not (f'len({full})' in src(loops[-1].test) or src(loops[-1].test) == full)
+        # enclosing comprehensions count as loops as well
+        p_ = getattr(pn.ast, '_parent', None)
+        comps = []
+        for w in walk_no_defs(pn.ast):
+            if isinstance(w, (ast.ListComp, ast.GeneratorExp, ast.SetComp)) and full + '.popleft()' in src(w.elt):
+                comps.extend(w.generators)
+        bounds = [src(lp.test) if isinstance(lp, ast.While) else src(lp.iter) for lp in loops[-1:]] + [src(c.iter) for c in comps]
+        ok = bool(bounds) and not any(full in b_ for b_ in bounds)
         chk.ob('g', d.ref, 'the number of entries taken is the count snapshotted before (not "until the FIFO is empty", which races with concurrent appends '
                            'and breaks the pass snapshot)', ok, loc(d, pn.ast), discr='snapshot-bounded')
 
